@@ -24,7 +24,7 @@ Definition check_case_c (c : tcase) : bool := check_case c && case_conforms c.
 """
 
 
-PREAMBLE = 'From AB Require Import Prelude.\nFrom AB Require Import Desc Generated Tree TreeDefs TreeRun.\nFrom Coq Require Import ZArith String List.\nImport ListNotations.\nOpen Scope string_scope.\nOpen Scope Z_scope.\n' + CONFORMS
+PREAMBLE = 'From AB Require Import Prelude.\nFrom AB Require Import Desc Generated Tree TreeDefs TreeWF TreeRun.\nFrom Coq Require Import ZArith String List.\nImport ListNotations.\nOpen Scope string_scope.\nOpen Scope Z_scope.\n' + CONFORMS
 
 
 def q(s: str) -> str:
@@ -86,6 +86,14 @@ class Dumper:
                 f'[{"; ".join(kids)}] [{"; ".join(data)}])')
 
 
+def wcase(d: 'Dumper', m, whole: bool) -> str:
+    store = 'None'
+    node = d.node(m)
+    if whole:
+        store = '(Some [' + '; '.join(d.tk(t) for t in m.token_store) + '])'
+    return f'TWf {node} {store}'
+
+
 def small_doc(rng):
     return gen_docs.ledger(rng, n_dir=rng.choice([1, 1, 2, 3]))
 
@@ -97,6 +105,7 @@ def run(ctx: common.Ctx, prop: str):
     from autobean_refactor.models.internal import properties as props
     from harness import edits
     cases, metas = [], []
+    wcases, wmetas = [], []
     n_docs = ctx.scale(60, 500)
     sd.set_load_factor(1000)
     for _ in range(n_docs):
@@ -143,6 +152,21 @@ def run(ctx: common.Ctx, prop: str):
                 if what == 'indent_by' and impl:
                     ctx.monitor_failure('C20:indent_by-ignored', f'{p}: changing indent_by of a nested model left the documents equal',
                                         {'text': text, 'path': p})
+        if prop == 'C05':
+            # the verified checker wf_b (TreeWF.wf_b_sound) on implementation states: parsed, sub-node, after edits
+            d = Dumper()
+            wcases.append(wcase(d, a, True)); wmetas.append({'kind': 'wf-parsed', 'text': text})
+            p_, x_ = r.choice(na)
+            d = Dumper()
+            wcases.append(wcase(d, x_, False)); wmetas.append({'kind': 'wf-subnode', 'text': text, 'path': p_})
+            hist = []
+            for _e in range(r.choice([1, 2, 4])):
+                e = edits.random_edit(r, b)
+                if e is not None:
+                    hist.append(repr(e))
+            d = Dumper()
+            wcases.append(wcase(d, b, True)); wmetas.append({'kind': 'wf-after-edits', 'text': text, 'history': hist})
+            nb = [(p2, m) for p2, m in treewalk.walk(b) if isinstance(m, base.RawTreeModel) and not isinstance(m, Repeated)]
         if prop in ('C05', 'C01', 'C15'):
             for _k in range(4):
                 p, x = r.choice(na)
@@ -175,6 +199,8 @@ def run(ctx: common.Ctx, prop: str):
                         after = d.node(popped)
                         cases.append(f'TReattach {before} {d.sid(popped.token_store)} {after}')
                         metas.append({'kind': 'reattach-pop', 'text': text, 'wrapper': name, 'index': i})
+                        d2 = Dumper()
+                        wcases.append(wcase(d2, popped, True)); wmetas.append({'kind': 'wf-popped', 'text': text, 'wrapper': name, 'index': i})
         if prop in ('C11',):
             for _k in range(3):
                 p, x = r.choice(na)
@@ -193,6 +219,25 @@ def run(ctx: common.Ctx, prop: str):
                 idmap = '[' + '; '.join(f'({d.tid(o)}, {d.tid(n)})' for o, n in zip(olds, news)) + ']'
                 cases.append(f'TCopy {term_a} {term_c} {idmap}')
                 metas.append({'kind': 'deepcopy', 'text': text, 'path': p})
+                d2 = Dumper()
+                wcases.append(wcase(d2, c, True)); wmetas.append({'kind': 'wf-deepcopy', 'text': text, 'path': p})
+    if prop == 'C15':
+        # constructed models: the verified WF checker on from_value results and assembled files
+        from autobean_refactor import models as M
+        r = random.Random(ctx.rng.randrange(1 << 30))
+        for _ in range(ctx.scale(40, 300)):
+            m = r.choice([edits.make_directive, edits.make_posting, lambda rr: edits.make_meta_item(rr),
+                          lambda rr: M.File.from_value([edits.make_directive(rr) for _ in range(rr.choice([1, 2, 3]))])])(r)
+            d = Dumper()
+            wcases.append(wcase(d, m, True)); wmetas.append({'kind': 'wf-constructed', 'class': type(m).__name__, 'text': treewalk.text_of(m)})
+    if wcases:
+        badw = ctx.run_coq_cases('treewf', PREAMBLE, 'wcase', 'check_wcase', wcases, chunk=20)
+        ctx.count('traces_validated_against_impl', len(wcases) - len(badw))
+        for k in wmetas:
+            ctx.dist('corr=' + k['kind'])
+        for i in badw[:3]:
+            ctx.fail('corr', 'tree-wf-' + wmetas[i]['kind'],
+                     f'the verified well-formedness checker TreeWF.wf_b rejects an implementation state ({wmetas[i]["kind"]})', wmetas[i])
     if not cases:
         return
     bad = ctx.run_coq_cases('tree', PREAMBLE, 'tcase', 'check_case_c', cases, chunk=25)
